@@ -392,3 +392,31 @@ class IdSeam:
 
 
 ID_SEAM = IdSeam()
+
+
+# ------------------------------------------------------------------------------------------ minimiser
+
+
+@contextlib.contextmanager
+def iteration_cap(k, methods=("Newton-CG", "trust-ncg", "trust-krylov", "trust-exact")):
+    """The minimiser stops early: SciPy's own iteration limit is set to `k` for the Newton-type methods,
+    which tf_pwa calls without any limit.  Patches the name `minimize` as tf_pwa.fit sees it; SciPy itself
+    runs unchanged and reports success=False / "maximum number of iterations" on its own."""
+    import tf_pwa.fit as tfit
+
+    orig = tfit.minimize
+    state = {"capped": 0}
+
+    def minimize(fun, x0, *a, **kw):
+        if kw.get("method") in methods:
+            opt = dict(kw.get("options") or {})
+            opt["maxiter"] = min(int(opt.get("maxiter") or k), int(k))
+            kw["options"] = opt
+            state["capped"] += 1
+        return orig(fun, x0, *a, **kw)
+
+    tfit.minimize = minimize
+    try:
+        yield state
+    finally:
+        tfit.minimize = orig
